@@ -158,6 +158,24 @@ func serverScenarios() []*spxScenario {
 			}
 			return x
 		}},
+		{Name: "S18-reset-vs-handler-with-body-stream", Role: "server", Build: func() *spxInst {
+			h := c19Server(harness.ServerOpts{EarlyBodyStream: true})
+			x := &spxInst{s: h.S, srv: h}
+			x.start = func() {
+				x.startEnv(
+					&harness.EnvThread{Name: "peer", Steps: []harness.EnvStep{
+						{Kind: "inject", Bytes: frames(c19Req(h, 3, false), peer.Data(3, []byte("abc"), true, -1))},
+						{Kind: "inject", Bytes: frames(peer.RstStream(3, 8))},
+						{Kind: "inject", Bytes: frames(c19Req(h, 5, true))},
+					}},
+					&harness.EnvThread{Name: "handlers", Steps: []harness.EnvStep{
+						{Kind: "finish", Call: 1, Resp: harness.Resp{Status: 200, Headers: c19RespHdr, Body: []byte("late answer to a reset stream")}},
+						{Kind: "finish", Call: 2, Resp: harness.Resp{Status: 200, Headers: c19RespHdr, Body: []byte("two")}},
+					}},
+				)
+			}
+			return x
+		}},
 		{Name: "S3-timers-vs-teardown", Role: "server", Build: func() *spxInst {
 			h := c19Server(harness.ServerOpts{PingInterval: time.Second, IdleTimeout: 3 * time.Second, ReadTimeout: 2 * time.Second})
 			x := &spxInst{s: h.S, srv: h}
